@@ -42,6 +42,14 @@ fn request_id_of(body: &[u8]) -> u32 {
     }
 }
 
+fn operation_of(body: &[u8]) -> u32 {
+    if body.len() >= 4 {
+        u16::from_be_bytes([body[2], body[3]]) as u32
+    } else {
+        0
+    }
+}
+
 pub enum Hangup {
     /// close normally
     Fin,
@@ -50,7 +58,7 @@ pub enum Hangup {
 }
 
 /// Serve one connection over any byte stream; `raw` is the underlying socket (timeouts, shutdown, RST).
-pub fn serve<S: Read + Write>(stream: &mut S, raw: &TcpStream, scripts: &BTreeMap<u32, Script>, stop: &AtomicBool) -> (SeenConn, Hangup) {
+pub fn serve<S: Read + Write>(stream: &mut S, raw: &TcpStream, scripts: &BTreeMap<u32, Script>, stop: &AtomicBool, key_by_op: bool) -> (SeenConn, Hangup) {
     let mut seen = SeenConn { req: ReqRecord::default(), script_key: None, fault_hit: false, reset_fired: false, app_bytes: 0, handshake_error: None };
     let mut conn = Conn::new();
     let _ = raw.set_read_timeout(Some(Duration::from_millis(50)));
@@ -100,7 +108,7 @@ pub fn serve<S: Read + Write>(stream: &mut S, raw: &TcpStream, scripts: &BTreeMa
         return (seen, Hangup::Fin);
     }
     // phase 2: answer from the script chosen by the IPP request-id
-    let key = request_id_of(&conn.req.body);
+    let key = if key_by_op { operation_of(&conn.req.body) } else { request_id_of(&conn.req.body) };
     let (k, script) = match scripts.get(&key) {
         Some(s) => (key, s.clone()),
         None => {
@@ -182,6 +190,11 @@ pub struct TcpPrinter {
 
 impl TcpPrinter {
     pub fn start(scripts: BTreeMap<u32, Script>, _expected: usize) -> io::Result<TcpPrinter> {
+        Self::start_keyed(scripts, false)
+    }
+
+    /// `key_by_op`: choose the script by IPP operation id instead of request-id (ipputil always uses request-id 1)
+    pub fn start_keyed(scripts: BTreeMap<u32, Script>, key_by_op: bool) -> io::Result<TcpPrinter> {
         let l = TcpListener::bind("127.0.0.1:0")?;
         let port = l.local_addr()?.port();
         let stop = Arc::new(AtomicBool::new(false));
@@ -198,7 +211,7 @@ impl TcpPrinter {
                 let (scripts, stop3, seen3) = (scripts.clone(), stop2.clone(), seen2.clone());
                 let h = std::thread::Builder::new().name("sim-printer-conn".into()).spawn(move || {
                     let raw = s.try_clone().expect("clone socket");
-                    let (sc, h) = serve(&mut s, &raw, &scripts, &stop3);
+                    let (sc, h) = serve(&mut s, &raw, &scripts, &stop3, key_by_op);
                     seen3.lock().unwrap().push(sc);
                     hang_up(&raw, h);
                 });
